@@ -28,15 +28,19 @@ from mc.core import CaseStage, Res, bad, good
 
 PROPERTY = "C10"
 LEVEL = "exploration"
-RULE = ("(a) every (expression tree, resolver map, recursive flag) of the bounded alphabet: depth<=2 trees (thorough: "
-        "+depth 3 on a reduced operator set) over {a,b,c}, 8 constants, {+,*,**,/,neg,cos} x numeric resolvers, and "
-        "depth<=1 trees x all 11^3 maps {a,b,c}->{absent,float,int,negative,np.float64,complex,a,b,b+1,2*c,'b'} x "
-        "key form x recursive; every ordered pair of (expression, recursive) calls on ONE resolver object; every pair "
-        "of resolvers composed by resolve_parameters; a case is non-trivial when the resolver touches a symbol of the "
-        "expression; (b) every parameterizable gate family x parameter expressions {a,2a+b,a^2,a*pi} x 10 resolver "
-        "shapes; (c) every sweep term of depth<=3 over 15 leaves and Product/Zip/ZipLongest/Concat/+/*, every "
-        "Sweepable form; (d) every op sequence (so every unparameterized-prefix length) x simulators; (e) every "
-        "expression inside a gate through flatten; distinct = distinct case descriptors")
+RULE = ("(a) every (expression tree, resolver map, recursive flag) of the bounded alphabet: all trees of depth<=1 and the "
+        "depth-2 trees with one atomic side (quick: over a reduced atom set; thorough: any depth-1 tree on the other side, "
+        "plus depth-3 trees on the operator set {+,*,**}) over symbols {a,b,c}, constants {0,1,2,-1,1/2,0.5,pi,I}, "
+        "operators {+,*,**,/,neg,cos} x 25 numeric/symbolic resolvers, and 22 expression forms (thorough: all depth-1 "
+        "trees) x all 11^3 maps {a,b,c}->{absent,float,int,negative,np.float64,complex,a,b,b+1,2*c,'b'} x key form "
+        "{str,Symbol,mixed} x recursive x {value_of, resolve_parameters}; every ordered pair (thorough: also triples) of "
+        "(expression, recursive) calls on ONE resolver object; every pair of resolvers composed by resolve_parameters; a "
+        "case is non-trivial when the resolver touches a symbol of the expression; (b) every parameterizable gate "
+        "family / composite x parameter expressions {a,2a+b,a^2,a*pi} x 11 resolver shapes; (c) every sweep term of "
+        "depth<=3 over 16 leaves and Product/Zip/ZipLongest/Concat/+/*, every Sweepable form; (d) every op sequence "
+        "(length<=3, thorough 4; hence every unparameterized-prefix length) x layout x simulator; (e) every real "
+        "expression tree inside a gate through flatten (3 circuit shapes incl. forced name collisions); distinct = "
+        "distinct case descriptors")
 TECHNIQUE = ("bounded-exhaustive enumeration of expression trees x resolver maps x call histories against sympy's generic "
              "substitution (compared as functions at numeric probe points), of sweep terms against a list-of-dicts "
              "reference, and of parameterized objects against rebuilding from substituted numbers")
